@@ -7,11 +7,11 @@ EXHAUSTIVE = True
 EXPLANATION = ("On every skeleton instance: wherever a fetched token is pushed, the skip flag is true exactly for tokens in is_skipped's set (which contains Error) or marked by predicate_skip, decided per token class by path enumeration (S14); Parser.current "
                "is only assigned a significant token, or end_of_input (S15); peek and "
                "peek_left filter through is_skipped (S16); node end offsets derive from non_skip_len, which advance updates only on "
-               "the non-skip edge (S17). Equality of trees and diagnostics modulo trivia is not decided.")
+               "the non-skip edge (S17). stepping over a skipped token writes no parser state but the cursor (S20). Equality of trees and diagnostics modulo trivia is not decided.")
 
 
 def run(ctx, rep):
     def s14_15(i, r, o):
         ss = skel.s14_skipset(i, r)
         skel.s15_eager(i, r, ss)
-    common.s_rules(ctx, rep, [s14_15, lambda i, r, o: skel.s16_peek(i, r), lambda i, r, o: skel.s17_ends(i, r), lambda i, r, o: skel.s19_close_bump(i, r)])
+    common.s_rules(ctx, rep, [s14_15, lambda i, r, o: skel.s16_peek(i, r), lambda i, r, o: skel.s17_ends(i, r), lambda i, r, o: skel.s19_close_bump(i, r), lambda i, r, o: skel.s20_skip_pure(i, r)])
